@@ -321,63 +321,41 @@ func (m *immutableMap) Interface() any {
 
 // Equal checks if two Map instances are equal.
 func (m *immutableMap) Equal(other Value) bool {
-	if o, ok := other.(*immutableMap); ok {
+	if o, ok := other.(Map); ok {
 		if m.Hash() != o.Hash() {
 			return false
 		}
 
-		if len(m.value) == len(o.value) {
-			for hash, elements1 := range m.value {
-				elements2 := o.value[hash]
-				if len(elements1) != len(elements2) {
-					return false
-				}
-
-				for i := 0; i < len(elements1); i++ {
-					v1 := elements1[i][1]
-					v2 := elements2[i][1]
-
-					if !Equal(v1, v2) {
-						return false
-					}
-				}
-			}
-			return true
+		pairs1, pairs2 := sortedPairs(m), sortedPairs(o)
+		if len(pairs1) != len(pairs2) {
+			return false
 		}
+		for i := 0; i < len(pairs1); i++ {
+			if !Equal(pairs1[i][0], pairs2[i][0]) || !Equal(pairs1[i][1], pairs2[i][1]) {
+				return false
+			}
+		}
+		return true
 	}
 	return false
 }
 
 // Compare checks whether another Object is equal to this Map instance.
 func (m *immutableMap) Compare(other Value) int {
-	if o, ok := other.(*immutableMap); ok {
-		if len(m.value) != len(o.value) {
-			return compare(len(m.value), len(o.value))
-		}
-
-		keys := make([]uint64, 0, len(m.value))
-		for key := range m.value {
-			keys = append(keys, key)
-		}
-		slices.Sort(keys)
-
-		for _, hash := range keys {
-			elements1 := m.value[hash]
-			elements2 := o.value[hash]
-			if len(elements1) != len(elements2) {
-				return compare(len(elements1), len(elements2))
+	if o, ok := other.(Map); ok {
+		pairs1, pairs2 := sortedPairs(m), sortedPairs(o)
+		for i := 0; i < min(len(pairs1), len(pairs2)); i++ {
+			if c := compare(HashOf(pairs1[i][0]), HashOf(pairs2[i][0])); c != 0 {
+				return c
 			}
-
-			for i := 0; i < len(elements1); i++ {
-				v1 := elements1[i][1]
-				v2 := elements2[i][1]
-
-				if c := Compare(v1, v2); c != 0 {
-					return c
-				}
+			if c := Compare(pairs1[i][0], pairs2[i][0]); c != 0 {
+				return c
+			}
+			if c := Compare(pairs1[i][1], pairs2[i][1]); c != 0 {
+				return c
 			}
 		}
-		return 0
+		return compare(len(pairs1), len(pairs2))
 	}
 	return compare(m.Kind(), KindOf(other))
 }
@@ -421,6 +399,15 @@ func (m *immutableMap) UnmarshalJSON(bytes []byte) error {
 	m.value = mutable.value
 	m.hash = 0
 	return nil
+}
+
+// sortedPairs returns the key-value pairs of m in Range order: ascending key hash, then bucket order.
+func sortedPairs(m Map) [][2]Value {
+	pairs := make([][2]Value, 0, m.Len())
+	for k, v := range m.Range() {
+		pairs = append(pairs, [2]Value{k, v})
+	}
+	return pairs
 }
 
 func (m *immutableMap) mutable() *mutableMap {
